@@ -504,11 +504,28 @@ def r3_rebuild_and_assert(run, w):
   from .c04 import r3_schema_restore
   r3_schema_restore(H.RuleAlias(run, {"C04-R3": R3}), w)
   run.rule(R3, run.rules[R3]["desc"], floor=18)
-  # apply_user_actions
+  # apply_user_actions (private helpers of Engine it calls are read in place)
   fn = w.fn("engine.Engine.apply_user_actions")
-  ncfg, xcfg = fn.cfg, fn.xcfg
+  special = {"_apply_one_user_action", "assert_schema_consistent", "_undo_to_checkpoint",
+             "_bring_all_up_to_date", "apply_doc_action", "rebuild_usercode"}
+  sel = lambda fi: fi.cls is not None and fi.cls.qualname == "engine.Engine" and \
+      fi.name.startswith("_") and fi.name not in special
+  NI = H.InlinedCFG(w, fn, exceptional=False, depth=2, select=sel)
+  XI = H.InlinedCFG(w, fn, exceptional=True, depth=2, select=sel)
+  ncfg, xcfg = NI.cfg, XI.cfg
+  def region(I, stmts):
+    ids = set(H.nodes_of_stmts(I.cfg, H.stmts_under(stmts)))
+    grew = True
+    while grew:
+      grew = False
+      for k, v in I.spliced.items():
+        if k in ids and not v <= ids:
+          ids |= v
+          grew = True
+    return ids
   def loop_of(cfg):
-    loops = [n for n in cfg.nodes if n.kind == "for" and text(n.stmt.iter) == fn.fi.params()[1]]
+    loops = [n for n in cfg.nodes if n.kind == "for" and text(n.stmt.iter) == fn.fi.params()[1]
+             and any(n.stmt is x for x in H.stmts_under(fn.node.body))]
     if len(loops) != 1:
       raise AnalysisError("apply_user_actions: loop over the user actions not found")
     return loops[0]
@@ -517,20 +534,15 @@ def r3_rebuild_and_assert(run, w):
             text(n.stmt.targets[0]) == "self._schema_updated" and
             isinstance(n.stmt.value, ast.Constant) and n.stmt.value.value is val}
   touched = lambda e: True if text(e) == "self._schema_updated" else None
-  def asserts_in(cfg, nodes):
-    return {n.id for (n, c, nm) in fn.calls(cfg) if nm == "self.assert_schema_consistent" and
+  def asserts_in(I, nodes):
+    return {n.id for (n, c, nm) in I.calls() if nm == "self.assert_schema_consistent" and
             n.id in nodes}
-  def only_when_touched(cfg, ids):
-    """The assertion nodes run only when the flag is set (they are expensive, and the rule about
-    the flag being cleared relies on the test): with the flag false none of them is reachable from
-    the applied action."""
-    return ids
   lp = loop_of(ncfg)
-  body = H.nodes_of_stmts(ncfg, H.stmts_under(lp.stmt.body))
-  applies = {n.id for (n, c, nm) in fn.calls(ncfg) if nm == "self._apply_one_user_action"} & body
+  body = region(NI, lp.stmt.body)
+  applies = {n.id for (n, c, nm) in NI.calls() if nm == "self._apply_one_user_action"} & body
   if not applies:
     raise AnalysisError("apply_user_actions: _apply_one_user_action not called in the loop")
-  checks = asserts_in(ncfg, body)
+  checks = asserts_in(NI, body)
   # on the normal path, each applied user action that set the flag is followed by the assertion
   # before the next iteration / the end of the loop (however the test of the flag is spelled)
   bad = [a for a in applies
@@ -550,12 +562,14 @@ def r3_rebuild_and_assert(run, w):
          "the flag is cleared before the action runs and never between the action and its check",
          ok, fi=fn.fi)
   # after a rollback
-  undo = {n.id for (n, c, nm) in fn.calls(xcfg) if nm == "self._undo_to_checkpoint"}
+  undo = {n.id for (n, c, nm) in XI.calls() if nm == "self._undo_to_checkpoint"}
   hbody = set()
   for n in xcfg.nodes:
-    if n.kind == "handler" and any(u in xcfg.reach_after({n.id}) for u in undo):
-      hbody |= H.nodes_of_stmts(xcfg, H.stmts_under(n.stmt.body))
-  checks_h = asserts_in(xcfg, hbody)
+    if n.kind == "handler" and XI.owner[n.id] is fn and \
+        any(u in xcfg.reach_after({n.id}) for u in undo):
+      hbody |= region(XI, n.stmt.body)
+  undo &= hbody
+  checks_h = asserts_in(XI, hbody)
   xexits = {xcfg.exit.id, xcfg.raise_exit.id}
   ok = bool(undo) and bool(checks_h) and all(
     not (H.reach_assuming(xcfg, set(xcfg.normal_succ(u)), touched, removed=checks_h) & xexits)
